@@ -68,7 +68,14 @@ def judge(case):
     if sum(1 for d in dist if abs(d - dist[j]) < 1e-6) > 1:
         return core.result("tie-excluded", nontrivial=False)
     own = [e for e in exps if e.component.name == comp.name]
+    # the measured value in kg/(m2 h kPa), recomputed by the harness (exact unit arithmetic; the library's convert is not trusted here)
+    kg_j = line(P_REF[case["pidx"]], ea, temps[j], case["temps"][0])
+    if case.get("offline"):
+        kg_j *= (1.0 + 0.37 * math.sin(1.7 + 2.3 * case["temps"].index(temps[j])))
     measured = own[j].permeance.convert(to_units=U.Units.kg_m2_h_kPa, component=comp).value
+    if not core.close(measured, kg_j, 1e-12):
+        return core.result("judged", viol=[core.viol("C12/at_experiment", "the experiment at %r K was measured as %r kg/(m2 h kPa) (stated in %s) but converts to %r" % (
+            temps[j], kg_j, case["units"], measured))])
     st, got = core.call(mem.get_permeance, t, comp)
     v = []
     p_true = line(P_REF[case["pidx"]], ea, t, case["temps"][0])
@@ -142,6 +149,33 @@ def judge(case):
                 if (sa == "ok") != (sb == "ok") or (sa == "ok" and not core.bit_eq(float(ga.value), float(gb.value))):
                     v.append(core.viol("C12/stale_after_experiments_edited", "experiments %s after a query: T=%r answers %r, a fresh membrane with the same experiments answers %r" % (
                         how, t_, ga if sa != "ok" else float(ga.value), gb if sb != "ok" else float(gb.value))))
+                    break
+            if v:
+                break
+    # the regression recovers the line's energy from two or more experiments whatever energies the experiments state
+    if not v and n >= 2 and case["stated"] and not case.get("offline") and not case.get("per_experiment_ea"):
+        _c, _o, _t, e4, _m = build(case)
+        for e_ in e4:
+            if e_.component.name == comp.name:
+                e_.activation_energy = ea + 5000.0
+        st4, ea4 = core.call(U.Membrane(name="M", ideal_experiments=U.IdealExperiments(experiments=e4)).calculate_activation_energy, comp)
+        if st4 != "ok" or not core.close(float(ea4), ea, 1e-7 if case.get("narrow") else 1e-9, 1e-6):
+            v.append(core.viol("C12/regression", "%d experiments on the Arrhenius line of %r J/mol that state %r J/mol: calculate_activation_energy gives %r" % (n, ea, ea + 5000.0, ea4)))
+    # ONE Permeance object (stated in SI or GPU) serves as the measurement of BOTH components: each component's permeance is that number
+    # converted with its own molar mass, whichever component is asked first
+    if not v and case["units"] != U.Units.kg_m2_h_kPa and t == temps[j]:
+        num = float(own[j].permeance.value)
+        for order in ((comp, other), (other, comp)):
+            shared = U.Permeance(value=num, units=case["units"])
+            memS = U.Membrane(name="M", ideal_experiments=U.IdealExperiments(experiments=[
+                U.IdealExperiment(name="a", temperature=t, component=comp, permeance=shared, activation_energy=30000.0),
+                U.IdealExperiment(name="b", temperature=t, component=other, permeance=shared, activation_energy=20000.0)]))
+            for c_ in order:
+                want = float(U.exact_permeance_to_kg(num, case["units"], c_.molecular_weight))
+                stS, gS = core.call(memS.get_permeance, t, c_)
+                if stS != "ok" or not core.close(float(gS.convert(U.Units.kg_m2_h_kPa, c_).value), want, 1e-12):
+                    v.append(core.viol("C12/at_experiment", "one Permeance object (%r %s) measured for both components: asked for %s (order %r) the membrane answers %r, exact %r kg/(m2 h kPa)" % (
+                        num, case["units"], c_.name, [z.name for z in order], gS if stS != "ok" else float(gS.value), want)))
                     break
             if v:
                 break
